@@ -10,10 +10,11 @@ import LhasaV.Driver.OpsSpecLhNew
 import LhasaV.Driver.OpsSpecPm
 import LhasaV.Driver.OpsSpecHeader
 import LhasaV.Driver.OpsCli
+import LhasaV.Driver.OpsMessages
 /-! `lhv`: one operation per input line, one canonical result line per operation. -/
 namespace LhasaV.Driver
 
-def dispatchers : List (List String → Option String) := [opCrc, opHeader, opDecoder, opReader, opSpec, opExtract, opList, opSpecLh1, opSpecLhNew, opSpecPm, opSpecHeader, opCli]
+def dispatchers : List (List String → Option String) := [opCrc, opHeader, opDecoder, opReader, opSpec, opExtract, opList, opSpecLh1, opSpecLhNew, opSpecPm, opSpecHeader, opCli, opMessages]
 
 def runLine (line : String) : String :=
   let toks := (line.trimAscii.toString.splitOn " ").filter (· ≠ "")
